@@ -46,6 +46,11 @@ def main():
     r = sh(env)
     res["demo_with_change_exit"] = r.returncode
     res["demo_with_change_tail"] = (r.stdout + r.stderr).strip()[-300:]
+    if "--skip-suite" in sys.argv and os.path.exists(f"{dst}/meta.json"):
+        prev = json.load(open(f"{dst}/meta.json"))
+        for k_ in ("suite_with_change", "suite_ok", "suite_wall", "flaky_io_test_rerun_alone"):
+            if k_ in prev:
+                res[k_] = prev[k_]
     if "--skip-suite" not in sys.argv:
         t0 = time.time()
         r = sh(f"cd {WT} && env -u FANDANGO_VERIF PYTHONPATH={WT}/src /venv/bin/python -m pytest -q -p no:cacheprovider --timeout=900 --continue-on-collection-errors -n 6 --junitxml=/tmp/seedv.xml tests > /tmp/seedv.log 2>&1; tail -1 /tmp/seedv.log; /venv/bin/python /verif/tools/baseline_compare.py /tmp/seedv.xml | head -5")
